@@ -69,7 +69,23 @@ C04_GEN = {
 
 
 def c04(tier, seed, replay):
-    return pipeline.run("C04", tier, seed, replay, gen=C04_GEN, drv_extra=["-tag"])
+    import c04r
+    from verif import Work
+    if replay and c04r.is_real_replay(replay):
+        work = Work("C04")
+        try:
+            return c04r.do_replay(work, replay)
+        finally:
+            work.close()
+
+    def real(verdict, work, tier, seed):
+        # second half of the property: REAL authenticators classify missing versus rejected credentials
+        _, cov = c04r.run_into(verdict, work, tier, seed)
+        verdict.coverage["real_authenticators"] = cov
+        verdict.coverage["traces_validated_against_impl"] += cov.get("traces_validated_against_impl", 0)
+        verdict.coverage["evaluations"] += cov.get("evaluations", 0)
+
+    return pipeline.run("C04", tier, seed, replay, gen=C04_GEN, drv_extra=["-tag"], extra=real)
 
 
 def _lazy(module, fn="run"):
@@ -87,6 +103,7 @@ CHECKS = {
 
 # checks living in their own module lib/<module>.py with run(tier, seed, replay)
 for _pid, _mod in {
+    "C05": "c05",
     "C07": "c07",
     "C13": "c13",
     "C14": "c14",
